@@ -7,7 +7,7 @@ R5 option wiring.
 """
 import ast
 
-from sa.astutil import (effective, call_name, calls_in, dotted, norm, walk_no_nested, try_fold,
+from sa.astutil import (string_builders, effective, call_name, calls_in, dotted, norm, walk_no_nested, try_fold,
                         names_in, last_attr, call_arg, guards_of, fact_texts, str_consts)
 from sa.loader import AnalysisError
 from sa.canon import canon
@@ -372,10 +372,9 @@ def run(ctx):
         w_ok = True
         for phrase, pos in sentences.items():
             found = False
-            for call in calls_in(writer, nested=False):
-                if last_attr(call) == 'format' and isinstance(call.func.value, ast.Constant) \
-                        and isinstance(call.func.value.value, str):
-                    used = {norm(a) for a in call.args}
+            for call, tpl in string_builders(writer):
+                if True:
+                    used = {f[1] for f in tpl if f[0] == 'fld'}
                     if used and used <= set(groups[pos]):
                         # the phrase is in this literal or in the literal appended just before
                         stmt = call
